@@ -59,6 +59,8 @@ type tmpl struct {
 	TargetKind string // ConfigMap | Widget | ClusterWidget
 	TargetNS   string // "" absent | literal | "@k0"
 	Rev        int
+	// OmitOptional: keys of optional sources are left out of the target when the source is missing or its value is empty
+	OmitOptional bool
 }
 
 func (d *tmpl) key() types.NamespacedName { return types.NamespacedName{Namespace: d.NS, Name: d.Name} }
@@ -110,7 +112,9 @@ func (d *tmpl) text() string {
 		b.WriteString("spec:\n")
 	}
 	for _, s := range d.Sources {
-		if s.Optional {
+		if s.Optional && d.OmitOptional {
+			fmt.Fprintf(&b, "{{- with index .config %q }}\n  %s: {{ . | quote }}\n{{- end }}\n", s.Dest, s.Dest)
+		} else if s.Optional {
 			fmt.Fprintf(&b, "  %s: {{ index .config %q | default \"none\" | quote }}\n", s.Dest, s.Dest)
 		} else {
 			fmt.Fprintf(&b, "  %s: {{ .config.%s | quote }}\n", s.Dest, s.Dest)
@@ -205,14 +209,22 @@ func classify(d *tmpl, kube string, look func(s src) (string, bool)) verdict {
 		if !ok {
 			if s.Optional {
 				v.Retry = true
-				v.Content[s.Dest] = "none"
+				if !d.OmitOptional {
+					v.Content[s.Dest] = "none"
+				}
 				continue
 			}
 			v.Class = "missing-required"
 			return v
 		}
 		vals[s.Dest] = val
-		v.Content[s.Dest] = val
+		switch {
+		case s.Optional && val == "" && d.OmitOptional:
+		case s.Optional && val == "":
+			v.Content[s.Dest] = "none"
+		default:
+			v.Content[s.Dest] = val
+		}
 	}
 	if d.Broken != "" {
 		v.Class = "template-error"
@@ -610,6 +622,9 @@ func run(c *vh.Ctx, i int) {
 			return []string{"ns-a", "ns-a", "ns-b"}[r.Intn(3)]
 		}
 		valSeq++
+		if r.Intn(6) == 0 {
+			return "" // an emptied value
+		}
 		return fmt.Sprintf("v%d", valSeq)
 	}
 	nsFeeding := map[pool]bool{} // sources whose value is used as the target namespace
@@ -711,6 +726,7 @@ func run(c *vh.Ctx, i int) {
 		if r.Intn(8) == 0 {
 			d.Broken = []string{"parse", "exec"}[r.Intn(2)]
 		}
+		d.OmitOptional = r.Intn(2) == 0
 		return d
 	}
 	nT := 1 + r.Intn(3)
